@@ -55,15 +55,20 @@ func normAudit(a *auditJSON) interface{} {
 func runC10(ctx *Ctx, g Dag, buf int, tagged bool) {
 	d, pre := g.desc()
 	if tagged {
-		// put a MapToTags between the first source and its consumers
-		src := g.Nodes[0].Name
-		d.Nodes = append(d.Nodes, Node{Name: "tagger", Kind: "maptotags", Arg: "origin"})
-		for i := range d.Edges {
-			if d.Edges[i].From == src+".out" {
-				d.Edges[i].From = "tagger.out"
+		// put a MapToTags with a key of its own between every file source and its consumers
+		for _, sn := range g.Nodes {
+			if sn.Kind != "src" {
+				continue
 			}
+			tg := "tagger_" + sn.Name
+			d.Nodes = append(d.Nodes, Node{Name: tg, Kind: "maptotags", Arg: "origin_" + sn.Name})
+			for i := range d.Edges {
+				if d.Edges[i].From == sn.Name+".out" {
+					d.Edges[i].From = tg + ".out"
+				}
+			}
+			d.Edges = append(d.Edges, Edge{From: sn.Name + ".out", To: tg + ".in"})
 		}
-		d.Edges = append(d.Edges, Edge{From: src + ".out", To: "tagger.in"})
 	}
 	rr := RunWorkflow(d, RunOpts{Pre: pre, Timeout: 25e9, Env: []string{fmt.Sprintf("SCIPIPE_BUFSIZE=%d", buf)}})
 	defer os.RemoveAll(rr.Dir)
@@ -131,6 +136,7 @@ func runC10(ctx *Ctx, g Dag, buf int, tagged bool) {
 			if a.FinishTime.Before(a.StartTime) || a.ExecTimeNS < 0 || diff > time.Millisecond || a.StartTime.IsZero() {
 				bad(fmt.Sprintf("timing start=%v finish=%v exec=%v", a.StartTime, a.FinishTime, a.ExecTimeNS))
 			}
+			wantTags := map[string]string{}
 			if len(a.Upstream) != len(uniq(ins)) {
 				bad(fmt.Sprintf("Upstream has %d entries for inputs %v", len(a.Upstream), ins))
 			}
@@ -146,7 +152,7 @@ func runC10(ctx *Ctx, g Dag, buf int, tagged bool) {
 					if u.ProcessName != "" || u.Command != "" || len(u.Upstream) != 0 {
 						bad(fmt.Sprintf("Upstream[%s] of a source file is not empty: %+v", p, u))
 					}
-					if tagged && strings.HasPrefix(p, g.Nodes[0].Name+"_") {
+					if tagged {
 						ctx.Res.Violate(Violation{What: fmt.Sprintf("tagged source %s has no audit file", p), Class: "c10.tags", Witness: g})
 					}
 					continue
@@ -156,9 +162,17 @@ func runC10(ctx *Ctx, g Dag, buf int, tagged bool) {
 				}
 				// tags of the input are on this record
 				for k, v := range disk.Tags {
+					wantTags[k] = v
 					if a.Tags[k] != v {
 						ctx.Res.Violate(Violation{What: fmt.Sprintf("tag %s=%s of input %s is missing on the record of %s (tags %v)", k, v, p, e.path, a.Tags), Class: "c10.tags", Witness: g})
 					}
+				}
+			}
+			// ... and nothing else: no tagging component sits behind a process in these workflows, so a tag
+			// that none of the inputs carries came from somewhere it must not (another task's record)
+			for k, v := range a.Tags {
+				if wantTags[k] != v {
+					ctx.Res.Violate(Violation{What: fmt.Sprintf("record of %s carries tag %s=%s that none of its inputs %v carries (their tags: %v)", e.path, k, v, ins, wantTags), Class: "c10.foreign-tag", Witness: g})
 				}
 			}
 		}
@@ -186,7 +200,10 @@ func checkC10(ctx *Ctx) {
 		buf    int
 		tagged bool
 	}
-	jobs := []job{{Dag{Max: 2, Nodes: []DNode{{Name: "s0", Kind: "src", Items: 2}, {Name: "P0", Kind: "proc", Ins: []string{"s0"}}, {Name: "P1", Kind: "proc", Ins: []string{"P0", "s0"}, PIn: "@", PVals: []string{"x", "y"}}, {Name: "P2", Kind: "proc", Ins: []string{"P1"}}}}, 128, true}}
+	jobs := []job{{Dag{Max: 2, Nodes: []DNode{{Name: "s0", Kind: "src", Items: 2}, {Name: "P0", Kind: "proc", Ins: []string{"s0"}}, {Name: "P1", Kind: "proc", Ins: []string{"P0", "s0"}, PIn: "@", PVals: []string{"x", "y"}}, {Name: "P2", Kind: "proc", Ins: []string{"P1"}}}}, 128, true},
+		// two differently tagged sources into one task, and a second consumer of each (fan-out below a tagged file)
+		{Dag{Max: 2, Nodes: []DNode{{Name: "s0", Kind: "src", Items: 2}, {Name: "s1", Kind: "src", Items: 2}, {Name: "P0", Kind: "proc", Ins: []string{"s0", "s1"}},
+			{Name: "P1", Kind: "proc", Ins: []string{"s0"}}, {Name: "P2", Kind: "proc", Ins: []string{"s1", "P0"}}, {Name: "P3", Kind: "proc", Ins: []string{"P1", "P2"}}}}, 128, true}}
 	for i := 0; i < n; i++ {
 		g := genBalancedDag(r, false, 4)
 		jobs = append(jobs, job{g, []int{1, 3, 128}[r.Intn(3)], r.Intn(3) == 0 && g.Nodes[0].Kind == "src"})
